@@ -73,7 +73,7 @@ def make_case(unit):
         cases.add_total_subtotals(facets, transforms)
     spec = sim.CubeSpec(facets, w, ("mean",) if "numarr" in template else ())
     return {"template": template, "spec": sim.spec_to_dict(spec), "transforms": transforms,
-            "ins": ins, "hides": hides}
+            "ins": ins, "hides": hides, "mask_size": cases.mask_size_for(ID, i)}
 
 
 def _add_hides(g, facets, transforms):
